@@ -353,7 +353,7 @@ format of the regular files is the one the recorded witnesses use) -/
 def entryOfArgs (n c : String) : Model.Wal.DirEntry :=
   let name := String.ofList ((unhex n).map fun b => Char.ofNat b.toNat)
   if c.startsWith "d:" then ⟨name, .dir, []⟩
-  else if c.startsWith "l:" then ⟨name, .symlink, unhex (c.drop 2)⟩
+  else if c.startsWith "l:" then ⟨name, .symlink, unhex (String.ofList (c.toList.drop 2))⟩
   else ⟨name, .regular, unhex c⟩
 
 def contentArg (e : Model.Wal.DirEntry) : String :=
